@@ -106,6 +106,11 @@ def jobs(tier, seed):
         (["Partial", ["Multiply", ["const", SYM("c1")], X], "x", 0], ["Partial", ["Multiply", ["const", SYM("c2")], X], "obj:x", 1], []),
         (["Partial", ["Multiply", X, Y], "x", 0], ["Partial", ["Multiply", X, Y], "y", 0], []),
         (["Partial", ["Multiply", X, Y], "x", 1], ["Partial", ["Multiply", X, Y], "obj:x", 0], []),
+        # multi-character names: the two specs carry distinct string objects (names built at run time are not interned)
+        (["Partial", ["Multiply", ["var", "alpha_1"], Y], "alpha_1", 0], ["Partial", ["Multiply", ["var", "alpha_1"], Y], "obj:alpha_1", 1], []),
+        (["Partial", ["Sine", ["var", "theta"]], "theta", 0], ["Partial", ["Sine", ["var", "theta"]], "".join(["th", "eta"]), 0], []),
+        (["expr", ["Add", ["var", "alpha_1"], ["var", "beta_2"]]], ["expr", ["Add", ["var", "alpha_" + "1"], ["var", "beta_2"]]], []),
+        (["Point", [["alpha_1", SYM("c1")]]], ["Point", [["alpha_" + "1", SYM("c1")]]], []),
         (["Derivative", ["NthPower", X, SYM("n1")], 0], ["Derivative", ["NthPower", X, SYM("n2")], 1], ["n1", "n2"]),
         (["Differential", ["Add", X, ["const", SYM("c1")]], 1], ["Differential", ["Add", X, ["const", SYM("c2")]], 0], []),
         (["LocatedDifferential", ["Multiply", X, Y], [["x", SYM("c1")], ["y", SYM("c2")]]], ["LocatedDifferential", ["Multiply", X, Y], [["y", SYM("c3")], ["x", SYM("c4")]]], []),
